@@ -1,0 +1,21 @@
+// +build verif
+
+// Package verifhook provides named yield points for the runtime-monitoring
+// harness. With the "verif" build tag off, Point is an empty function.
+package verifhook
+
+import "sync/atomic"
+
+var fn atomic.Value
+
+// Install sets the function called at every yield point.
+func Install(f func(string)) {
+	fn.Store(f)
+}
+
+// Point is a named yield point.
+func Point(name string) {
+	if f, ok := fn.Load().(func(string)); ok && f != nil {
+		f(name)
+	}
+}
